@@ -37,7 +37,7 @@ var (
 	(CallExpr
 		(SelectorExpr recv (Ident "Write"))
 		(CallExpr (ArrayType nil (Ident "byte"))
-			(CallExpr
+			call@(CallExpr
 				fn@(Or
 					(Symbol "fmt.Sprint")
 					(Symbol "fmt.Sprintf")
@@ -48,7 +48,7 @@ var (
 	checkWriteStringSprintfQ = pattern.MustParse(`
 	(CallExpr
 		(SelectorExpr recv (Ident "WriteString"))
-		(CallExpr
+		call@(CallExpr
 			fn@(Or
 				(Symbol "fmt.Sprint")
 				(Symbol "fmt.Sprintf")
@@ -92,6 +92,8 @@ func run(pass *analysis.Pass) (any, error) {
 					Sel: ast.NewIdent(newName),
 				},
 				Args: append([]ast.Expr{recv}, args...),
+				// Preserve the "..." of a variadic spread such as fmt.Sprint(xs...)
+				Ellipsis: m.State["call"].(*ast.CallExpr).Ellipsis,
 			}))
 			report.Report(pass, node, msg, report.Fixes(fix))
 		} else if m, ok := code.Match(pass, checkWriteStringSprintfQ, node); ok {
@@ -116,6 +118,8 @@ func run(pass *analysis.Pass) (any, error) {
 					Sel: ast.NewIdent(newName),
 				},
 				Args: append([]ast.Expr{recv}, args...),
+				// Preserve the "..." of a variadic spread such as fmt.Sprint(xs...)
+				Ellipsis: m.State["call"].(*ast.CallExpr).Ellipsis,
 			}))
 			report.Report(pass, node, msg, report.Fixes(fix))
 		}
